@@ -2,6 +2,7 @@ package main
 
 import (
 	"regexp"
+	"strings"
 	"time"
 )
 
@@ -58,8 +59,32 @@ func (s Spec) floors(tier string) map[string]int64 {
 	}
 	return s.QuickFloors
 }
+// hangIsViolation decides whether the goroutine dump written by the per-case watchdog shows the stuck
+// state the property forbids, as opposed to a slow machine: some goroutine whose stack matches
+// HangViolation has been waiting for a lock for at least a minute ("N minutes" in its header), and no
+// goroutine matching HangViolation is doing anything else (a holder that is still working = contention).
 func (s Spec) hangIsViolation(dump string) bool {
-	return s.HangViolation != nil && s.HangViolation.MatchString(dump)
+	if s.HangViolation == nil {
+		return false
+	}
+	waiting, working := 0, 0
+	for _, g := range strings.Split(dump, "\n\n") {
+		if !strings.HasPrefix(g, "goroutine ") || !s.HangViolation.MatchString(g) {
+			continue
+		}
+		head := g
+		if i := strings.IndexByte(g, '\n'); i > 0 {
+			head = g[:i]
+		}
+		lockWait := strings.Contains(head, "Mutex.Lock") || strings.Contains(head, "Mutex.RLock") || strings.Contains(head, "semacquire")
+		switch {
+		case lockWait && strings.Contains(head, "minutes"):
+			waiting++
+		case !lockWait:
+			working++
+		}
+	}
+	return waiting > 0 && working == 0
 }
 
 var routeAssumptions = []string{
@@ -161,8 +186,8 @@ var specs = map[string]Spec{
 		Engine: "fwdsim", Run: "^TestMeta$", Race: false, ExtraRun: "^TestMetaConcurrent$", ExtraRace: true, ExtraShards: 16,
 		RaceViolation: regexp.MustCompile(`ReplicationStreamObserver\)\.(ReportStreamValue|PrintActiveStreams)`),
 		QuickShards:   16, ThoroughShards: 16, QuickWatchdog: 10 * time.Minute, ThoroughWatchdog: 60 * time.Minute,
-		MemGB: 12, CaseTimeoutS: 60,
-		HangViolation: regexp.MustCompile(`ReplicationStreamObserver\)\.ReportStreamValue`),
+		MemGB: 12, CaseTimeoutS: 150,
+		HangViolation: regexp.MustCompile(`ReplicationStreamObserver\)\.`),
 		Level:         "exploration",
 		LevelText:     "The real stream handler in all three modes, with the real ReplicationStreamObserver wired as createServer wires it, is opened with hostile stream-open metadata (each of the four ids at int32 boundary values, values that wrap in the decoder, non-numeric / missing / duplicated headers, pairs of hostile ids, seeded random int32s) in a child process under ulimit -v; then a well-formed stream must be served end to end on the same server and the observer's counters must return to zero. A hostile open must be served or rejected - a process death is attributed to the case by the driver; a handler parked on the observer's lock (goroutine dump) is the wedge the property names.",
 		LevelNote:     "Real time (no bubble): a wedged mutex would keep a virtual clock from advancing. Verdicts are state-based (outgoing stream opened, handler returned, goroutine parked in the observer); a plain timeout without the forbidden state is inconclusive. The assembled gRPC servers in front of the handler are covered by the wire engine.",
